@@ -18,6 +18,7 @@ type Clause struct {
 	Props     []string // properties served (defaults to the contract's)
 	Withdrawn bool     // not assumed at call sites (known finding, or a helper clause that no longer holds)
 	Line      string   // file:line
+	Local     bool     // "proves": checked on the body, never assumed by callers
 }
 
 type LoopSpec struct {
@@ -27,7 +28,14 @@ type LoopSpec struct {
 	DetStar       bool
 	DetProps      []string
 	Invariants    []*Clause
-	Modifies      []string // extra heap keys havocked (rarely needed)
+	Steps         []*Clause // relations between the state at the loop head (prev(K, e)) and at the end of one iteration
+	Modifies      []string  // extra heap keys havocked (rarely needed)
+}
+
+// SortKey states what a sort.Slice comparator orders by.
+type SortKey struct {
+	Var  string // name of the element in Text
+	Text string // key expression
 }
 
 type LetDef struct {
@@ -47,6 +55,7 @@ type Contract struct {
 	Name            string // contract-level name ("(*mux).Vars", "errors.As", "net/http.ResponseWriter.Header")
 	Pkg             string // import path of the package (func contracts)
 	Params          []string
+	Locals          []string // locals the contract mentions, in declaration order (see rename.go)
 	Props           []string
 	Requires        []*Clause
 	Ensures         []*Clause
@@ -57,6 +66,7 @@ type Contract struct {
 	ModNone         bool
 	ModStated       bool
 	Loops           map[int]*LoopSpec
+	SortKeys        map[int]*SortKey
 	Lets            []*LetDef
 	CallSpecs       map[string]*Contract
 	Inline          bool
@@ -78,6 +88,7 @@ type Contract struct {
 type AssertSpec struct {
 	Kind   string
 	Ord    int
+	Field  string // fieldstore: "T.f"
 	Clause *Clause
 }
 
@@ -371,6 +382,8 @@ func (sp *Specs) loadSpecFile(path, pkg string) error {
 			c.Props = append(c.Props, strings.Fields(rest)...)
 		case "params":
 			c.Params = strings.Fields(strings.ReplaceAll(rest, ",", " "))
+		case "locals":
+			c.Locals = strings.Fields(strings.ReplaceAll(rest, ",", " "))
 		case "requires", "requires*":
 			cl, err := parseClause(rest, l.pos, true)
 			if err != nil {
@@ -378,12 +391,14 @@ func (sp *Specs) loadSpecFile(path, pkg string) error {
 			}
 			cl.Star = word == "requires*"
 			c.Requires = append(c.Requires, cl)
-		case "ensures", "ensures*":
+		case "ensures", "ensures*", "proves", "proves*":
+			// proves: a postcondition checked on the body that callers do not assume
 			cl, err := parseClause(rest, l.pos, true)
 			if err != nil {
 				return fail(l, "%v", err)
 			}
-			cl.Star = word == "ensures*"
+			cl.Star = strings.HasSuffix(word, "*")
+			cl.Local = strings.HasPrefix(word, "proves")
 			c.Ensures = append(c.Ensures, cl)
 		case "panics_if":
 			cl, err := parseClause(rest, l.pos, false)
@@ -443,15 +458,26 @@ func (sp *Specs) loadSpecFile(path, pkg string) error {
 				c.Loops[k] = ls
 			}
 			switch kind {
-			case "invariant":
+			case "invariant", "invariant*":
+				cl, err := parseClause(r3, l.pos, true)
+				if err != nil {
+					return fail(l, "%v", err)
+				}
+				cl.Star = kind == "invariant*"
+				if cl.Label == "" {
+					cl.Label = fmt.Sprintf("inv%d", len(ls.Invariants)+1)
+				}
+				ls.Invariants = append(ls.Invariants, cl)
+			case "step", "step*":
 				cl, err := parseClause(r3, l.pos, true)
 				if err != nil {
 					return fail(l, "%v", err)
 				}
 				if cl.Label == "" {
-					cl.Label = fmt.Sprintf("inv%d", len(ls.Invariants)+1)
+					cl.Label = fmt.Sprintf("rel%d", len(ls.Steps)+1)
 				}
-				ls.Invariants = append(ls.Invariants, cl)
+				cl.Star = kind == "step*"
+				ls.Steps = append(ls.Steps, cl)
 			case "modifies":
 				for _, part := range splitTop(r3, ',') {
 					ls.Modifies = append(ls.Modifies, strings.TrimSpace(part))
@@ -463,6 +489,21 @@ func (sp *Specs) loadSpecFile(path, pkg string) error {
 			default:
 				return fail(l, "unknown loop clause %q", kind)
 			}
+		case "sortkey":
+			// sortkey N elem: key expression  (the N-th sort.Slice call orders by key(elem) ascending)
+			ns, r2 := splitWord(rest)
+			n, err := strconv.Atoi(ns)
+			if err != nil {
+				return fail(l, "sortkey ordinal: %v", err)
+			}
+			i := strings.Index(r2, ":")
+			if i < 0 {
+				return fail(l, "sortkey N elem: key")
+			}
+			if c.SortKeys == nil {
+				c.SortKeys = map[int]*SortKey{}
+			}
+			c.SortKeys[n] = &SortKey{Var: strings.TrimSpace(r2[:i]), Text: strings.TrimSpace(r2[i+1:])}
 		case "let":
 			name, r2 := splitWord(rest)
 			r2 = strings.TrimSpace(strings.TrimPrefix(strings.TrimSpace(r2), "="))
@@ -490,6 +531,11 @@ func (sp *Specs) loadSpecFile(path, pkg string) error {
 			if ns == "*" {
 				n, err = 0, nil // every instruction of that kind
 			}
+			field := ""
+			if kind == "fieldstore" {
+				// at fieldstore T.f assert[*] label: expr  -- every store to field f of a T
+				field, n, err = ns, 0, nil
+			}
 			if err != nil {
 				return fail(l, "at: ordinal or * expected")
 			}
@@ -502,7 +548,7 @@ func (sp *Specs) loadSpecFile(path, pkg string) error {
 				return fail(l, "%v", err)
 			}
 			cl.Star = aw == "assert*"
-			c.Asserts = append(c.Asserts, &AssertSpec{Kind: kind, Ord: n, Clause: cl})
+			c.Asserts = append(c.Asserts, &AssertSpec{Kind: kind, Ord: n, Field: field, Clause: cl})
 		case "split":
 			cl, err := parseClause(rest, l.pos, false)
 			if err != nil {
